@@ -1,9 +1,9 @@
 (* C14 -- small executable models:
    (a) control-point count / time span of fit_bspline
-       (/repo/include/smooth/spline/detail/fit_impl.hpp:320,
+       (/repo/include/smooth/spline/detail/fit_impl.hpp:321-322, :333,
         /repo/include/smooth/spline/detail/bspline_impl.hpp:36-45);
    (b) the interpolation fix-up of fit_spline over an abstract group
-       (/repo/include/smooth/spline/detail/fit_impl.hpp:260-269).
+       (/repo/include/smooth/spline/detail/fit_impl.hpp:261-270).
 
    Model file: definitions only.  Extractable with ExtrOcamlBasic. *)
 
@@ -13,11 +13,24 @@ Import ListNotations.
 (* ------------------------------------------------------------------ *)
 (* (a) fit_bspline span                                                *)
 
-(* fit_impl.hpp:320
-     NumPts = static_cast<Index>(K + static_cast<Index>((t1 - t0 + dt) / dt));
-   static_cast<Index> truncates toward zero, which is floor for the
-   non-negative values arising when dt > 0 and t0 <= t1. *)
+(* fit_impl.hpp:333 (objective) and :355 (jacobian), for a data time t:
+     const int64_t istar = static_cast<int64_t>((t - t0) / dt);
+   static_cast truncates toward zero, which is floor for the non-negative
+   values arising when dt > 0 and t0 <= t. *)
+Definition bs_istar (t0 dt t : Q) : Z := Qfloor ((t - t0) / dt).
+
+(* fit_impl.hpp:321-322
+     // the last data point uses control points istar, ..., istar + K with istar = (t1 - t0) / dt truncated
+     NumPts = static_cast<Index>(K + 1 + static_cast<Index>((t1 - t0) / dt));
+   i.e. literally K + 1 + istar(t1). *)
 Definition num_pts (K : Z) (t0 t1 dt : Q) : Z :=
+  (K + 1 + Qfloor ((t1 - t0) / dt))%Z.
+
+(* the formula before commit 435fdfb (fit_impl.hpp:320 of the unrepaired tree):
+     NumPts = K + static_cast<Index>((t1 - t0 + dt) / dt)
+   kept only to state that the two agree in exact arithmetic (Proofs/C14_Misc.v, num_pts_eq_old);
+   they differ in binary64 when t1 - t0 is a multiple of dt. *)
+Definition num_pts_old (K : Z) (t0 t1 dt : Q) : Z :=
   (K + Qfloor ((t1 - t0 + dt) / dt))%Z.
 
 (* bspline_impl.hpp:36-39   t_min() = m_t0 *)
@@ -38,27 +51,27 @@ Section Fixup.
   Variable glog : G -> T.           (* log<G> *)
   Variable tneg : T -> T.           (* unary minus on the tangent *)
 
-  (* fit_impl.hpp:266
+  (* fit_impl.hpp:267
        for (k = 0; k < mid; ++k) midval = composition(exp(-cum_coefs.col(k)), midval);
      [pre] = columns 0 .. mid-1 in increasing order *)
   Definition fixup_left (pre : list T) (midval : G) : G :=
     fold_left (fun m v => op (gexp (tneg v)) m) pre midval.
 
-  (* fit_impl.hpp:267
+  (* fit_impl.hpp:268
        for (k = K - 1; k > mid; --k) midval = composition(midval, exp(-cum_coefs.col(k)));
      [post] = columns mid+1 .. K-1; the loop visits them in decreasing order *)
   Definition fixup_right (post : list T) (midval : G) : G :=
     fold_left (fun m v => op m (gexp (tneg v))) (rev post) midval.
 
-  (* fit_impl.hpp:260-269; cs = columns of cum_coefs, K = length cs *)
+  (* fit_impl.hpp:261-270; cs = columns of cum_coefs, K = length cs *)
   Definition fixup (g g_next : G) (cs : list T) : list T :=
-    if (3 <=? length cs)%nat then                       (* :260 if constexpr (K > 2) *)
-      let mid := Nat.div (length cs) 2 in               (* :263 *)
+    if (3 <=? length cs)%nat then                       (* :261 if constexpr (K > 2) *)
+      let mid := Nat.div (length cs) 2 in               (* :264 *)
       let pre := firstn mid cs in
       let post := skipn (S mid) cs in
-      let m0 := op (inv g) g_next in                    (* :265 *)
-      let m1 := fixup_left pre m0 in                    (* :266 *)
-      let m2 := fixup_right post m1 in                  (* :267 *)
-      pre ++ glog m2 :: post                            (* :268 cum_coefs.col(mid) = log(midval) *)
+      let m0 := op (inv g) g_next in                    (* :266 *)
+      let m1 := fixup_left pre m0 in                    (* :267 *)
+      let m2 := fixup_right post m1 in                  (* :268 *)
+      pre ++ glog m2 :: post                            (* :269 cum_coefs.col(mid) = log(midval) *)
     else cs.
 End Fixup.
